@@ -1,17 +1,16 @@
 #!/bin/bash
-# usage: run_tests.sh <worktree>   -- runs the repository's test suite in <worktree>, reports whether all 349 baseline tests still pass
+# usage: run_baseline_in.sh <worktree>  -- runs the repository's test suite in <worktree> and reports whether all
+# baseline tests of /root/.vp/BASELINE.json still pass (exit 0 only if they all do)
 WT="$1"
-OUT=$(mktemp /tmp/mut/junit.XXXXXX.xml)
-cd "$WT" && /venv/bin/python -m pytest -q -p no:cacheprovider --timeout=900 --continue-on-collection-errors --junitxml="$OUT" -x --co -q >/dev/null 2>&1
+OUT=$(mktemp --suffix=.junit.xml)
 cd "$WT" && /venv/bin/python -m pytest -q -p no:cacheprovider --timeout=900 --continue-on-collection-errors --junitxml="$OUT" >/dev/null 2>&1
 /venv/bin/python - "$OUT" <<'PY'
-import sys, xml.etree.ElementTree as ET
-want = [l.strip() for l in open('/tmp/mut/baseline_pass.txt') if l.strip()]
+import json, sys, xml.etree.ElementTree as ET
+want = json.load(open('/root/.vp/BASELINE.json'))['stable_pass']
 root = ET.parse(sys.argv[1]).getroot()
 ok = set()
 for tc in root.iter('testcase'):
-    bad = any(ch.tag in ('failure', 'error', 'skipped') for ch in tc)
-    if not bad:
+    if not any(ch.tag in ('failure', 'error', 'skipped') for ch in tc):
         ok.add(tc.get('classname') + '::' + tc.get('name'))
 missing = [w for w in want if w not in ok]
 print(f"baseline tests passing: {len(want)-len(missing)}/{len(want)}")
